@@ -75,7 +75,7 @@ func resultCoq(r *ResultObs) string {
 }
 
 func (sc *Scenario) lcCoq() string {
-	return fmt.Sprintf("{| lc_contact := %s; lc_allowed := %s; lc_base := %s |}", hx.N(sc.ContactLang), hx.List(sc.Allowed, hx.N), hx.N(baseLang))
+	return fmt.Sprintf("{| lc_contact := %s; lc_allowed := %s; lc_base := %s |}", hx.N(sc.effLang()), hx.List(sc.Allowed, hx.N), hx.N(baseLang))
 }
 
 func observedCoq(o *NodeObs, x *ids) string {
@@ -250,7 +250,8 @@ func main() {
 	initTests()
 	res := hx.NewResult(o, "corpus of hand-picked scenarios, then generated scenarios in four streams: switch routers over the built-in tests "+
 		"(60%), switch routers that also use extension tests with unusual result shapes (10%), random routers with forced draws (20%), "+
-		"nodes without router (10%); each scenario is one flow + contact + environment + trigger (+ resume) run through the real engine; "+
+		"nodes without router (10%); each scenario is one flow + contact + environment + trigger (+ resume) run through the real engine; about a quarter "+
+		"enter a child flow before the router (the child changes the contact's language / name / fields in the same sprint), some time out twice; "+
 		"distinct = distinct scenario JSON; non-trivial = at least two cases match, or an earlier case errors, or the default / timeout / "+
 		"no-category branch is taken, or a random router has at least two categories, or a router-less node has at least two exits")
 	r := hx.NewRand(o.Seed)
@@ -329,6 +330,15 @@ func main() {
 		res.Dist("stream=" + sc.Stream)
 		res.Dist("branch=" + exp.branch)
 		res.Dist(fmt.Sprintf("outcome=%d", obs.R.Outcome))
+		if sc.Child {
+			res.Dist("child_flow")
+			if sc.ChildLang >= 0 && sc.ChildLang != sc.ContactLang {
+				res.Dist("child_flow:language_changed")
+			}
+		}
+		if sc.SecondTimeout {
+			res.Dist("second_timeout")
+		}
 		if sc.Kind == "switch" {
 			res.Dist(fmt.Sprintf("cases=%d", len(sc.Cases)))
 			res.Dist(fmt.Sprintf("matching=%d", min(exp.nMatching, 3)))
